@@ -270,7 +270,8 @@ def run_property(mod, prop, tier, seed, t0, only=None):
     # ---- evidence
     discharged = sum(1 for o in real_obs if o["status"] == "discharged")
     n_known = sum(1 for o in refuted if known_match(strip_path(o["name"]), o.get("inputs")))
-    undecided = bool(unknown or oos_units)
+    helper_refuted = [o for o in refuted if not o.get("prop_level", True)]
+    undecided = bool(unknown or oos_units or [o for o in helper_refuted if not o["name"].split("/")[1].startswith("dep_")])
     level = "proof" if not undecided and not checker_errors else "exploration"
     if level == "proof" and getattr(mod, "LEVEL", None):
         level = mod.LEVEL
@@ -324,6 +325,8 @@ def run_property(mod, prop, tier, seed, t0, only=None):
         print(f"  out-of-subset: {u}: {why}")
     for o in unknown[:10]:
         print(f"  unknown: {o['name']} ({o.get('reason')})")
+    for o in helper_refuted[:10]:
+        print(f"  sufficient condition not established (not a violation): {o['name']} {o.get('note') or ''}")
     for line in known_lines:
         print(line)
     if checker_errors:
